@@ -49,6 +49,83 @@ theorem compatAll_four (c1 c2 c3 c4 : Obj K)
   have r4 : List.range 4 = [0, 1, 2, 3] := rfl
   simp [r4, List.range', m12, m13, m14, m23, m24, m34, Array.setIfInBounds]
 
+/-! ## Every curve the re-ordering search returns is an input curve or its reversal -/
+
+theorem findNext_mem {C α : Type} (close : α → α → Bool) (startp endp : C → α) (rev : C → C) (cur : α) :
+    ∀ (cs : List C) (x : C) (r : List C), findNext close startp endp rev cur cs = some (x, r) →
+      (x ∈ cs ∨ ∃ c ∈ cs, x = rev c) ∧ ∀ y ∈ r, y ∈ cs
+  | [], x, r, h => by simp [findNext] at h
+  | c :: cs, x, r, h => by
+    unfold findNext at h
+    split_ifs at h with h1 h2
+    · simp only [Option.some.injEq, Prod.mk.injEq] at h
+      obtain ⟨rfl, rfl⟩ := h
+      exact ⟨Or.inl (List.mem_cons_self), fun y hy => List.mem_cons_of_mem _ hy⟩
+    · simp only [Option.some.injEq, Prod.mk.injEq] at h
+      obtain ⟨rfl, rfl⟩ := h
+      exact ⟨Or.inr ⟨c, List.mem_cons_self, rfl⟩, fun y hy => List.mem_cons_of_mem _ hy⟩
+    · cases hf : findNext close startp endp rev cur cs with
+      | none => rw [hf] at h; simp at h
+      | some pr =>
+        obtain ⟨x', r'⟩ := pr
+        rw [hf] at h
+        simp only [Option.map_some, Option.some.injEq, Prod.mk.injEq] at h
+        obtain ⟨rfl, rfl⟩ := h
+        obtain ⟨ih1, ih2⟩ := findNext_mem close startp endp rev cur cs x' r' hf
+        refine ⟨?_, ?_⟩
+        · rcases ih1 with h | ⟨c', hc', e⟩
+          · exact Or.inl (List.mem_cons_of_mem _ h)
+          · exact Or.inr ⟨c', List.mem_cons_of_mem _ hc', e⟩
+        · intro y hy
+          rcases List.mem_cons.mp hy with rfl | hy
+          · exact List.mem_cons_self
+          · exact List.mem_cons_of_mem _ (ih2 y hy)
+
+theorem loopGo_mem {C α : Type} (close : α → α → Bool) (startp endp : C → α) (rev : C → C) :
+    ∀ (k : ℕ) (cur : C) (rest l : List C), loopGo close startp endp rev k cur rest = .ok l →
+      ∀ x ∈ l, x ∈ rest ∨ ∃ c ∈ rest, x = rev c
+  | 0, _, _, l, h => by
+    simp only [loopGo, Except.ok.injEq] at h
+    subst h
+    intro x hx; cases hx
+  | k + 1, cur, rest, l, h => by
+    unfold loopGo at h
+    cases hf : findNext close startp endp rev (endp cur) rest with
+    | none => rw [hf] at h; simp at h
+    | some pr =>
+      obtain ⟨x', r'⟩ := pr
+      rw [hf] at h
+      simp only [] at h
+      cases hg : loopGo close startp endp rev k x' r' with
+      | error e => rw [hg] at h; simp [Except.map] at h
+      | ok l' =>
+        rw [hg] at h
+        simp only [Except.map, Except.ok.injEq] at h
+        subst h
+        obtain ⟨m1, m2⟩ := findNext_mem close startp endp rev (endp cur) rest x' r' hf
+        have ih := loopGo_mem close startp endp rev k x' r' l' hg
+        intro x hx
+        rcases List.mem_cons.mp hx with rfl | hx
+        · exact m1
+        · rcases ih x hx with h | ⟨c, hc, e⟩
+          · exact Or.inl (m2 x h)
+          · exact Or.inr ⟨c, m2 c hc, e⟩
+
+theorem loopOrder_mem {C α : Type} (close : α → α → Bool) (startp endp : C → α) (rev : C → C)
+    (c0 : C) (rest l : List C) (h : loopOrder close startp endp rev (c0 :: rest) = .ok l) :
+    ∃ t, l = c0 :: t ∧ ∀ x ∈ t, x ∈ rest ∨ ∃ c ∈ rest, x = rev c := by
+  unfold loopOrder at h
+  simp only [] at h
+  split_ifs at h with hl
+  · simp only [Except.ok.injEq] at h
+    exact ⟨rest, h.symm, fun x hx => Or.inl hx⟩
+  · cases hg : loopGo close startp endp rev 3 c0 rest with
+    | error e => rw [hg] at h; simp [Except.map] at h
+    | ok t =>
+      rw [hg] at h
+      simp only [Except.map, Except.ok.injEq] at h
+      exact ⟨t, h.symm, loopGo_mem close startp endp rev 3 c0 rest t hg⟩
+
 /-- **`edge_curves(c1, c2, c3, c4)` on a directed loop is `coons_patch(c1, c2, c3, c4)`**: the four curves
     have the same rationality and dimension (so the pairwise `make_splines_compatible` is the identity)
     and consecutive end control points are equal (so the closing test with tolerances `rtol, atol ≥ 0`
